@@ -272,7 +272,8 @@ func (e *Ent) Render(withDump bool) string {
 // grammar modelled by GunYu.Model.RdbFrame (header, AUX, SELECTDB, RESIZEDB,
 // EXPIRETIME(_MS), IDLE, FREQ, SLOTINFO, FUNCTION2, EOF + footer, value types
 // whose body is a string / a counted sequence of strings / (string,string)
-// pairs; length forms 6/14/32/64 bit; strings raw and int8/16/32). It mirrors
+// pairs / (string, 8 bytes) pairs; length forms 6/14/32/64 bit; strings raw and
+// int8/16/32). It mirrors
 // only the *classification* (supported / unsupported) of that model, never the
 // accept/reject outcome: as soon as the walk meets an LZF string, a float, a
 // stream, a module or module-aux it answers false; on any malformed or short
@@ -425,29 +426,42 @@ func (w *walker) run() bool {
 			w.str()
 		case 1, 2, 14:
 			w.str()
-			n := w.length()
+			n := w.length() & 0xFFFFFFFF
 			for i := uint64(0); i < n && !w.bad && !w.uns; i++ {
 				w.str()
 			}
 		case 18:
 			w.str()
-			n := w.length()
+			n := w.length() & 0xFFFFFFFF
 			for i := uint64(0); i < n && !w.bad && !w.uns; i++ {
 				w.length()
 				w.str()
 			}
 		case 4:
 			w.str()
-			n := w.length()
+			n := w.length() & 0xFFFFFFFF
 			for i := uint64(0); i < n && !w.bad && !w.uns; i++ {
 				w.str()
 				w.str()
 			}
-		case 3, 5, 6, 7, 15, 19, 21, 26:
-			// zset with floats / modules / streams: outside the byte model
-			// (the key string is read first by the real code, but the verdict
-			// "unsupported" does not depend on it unless the key is malformed,
-			// which the model also reports before looking at the type… so walk it)
+		case 5:
+			w.str()
+			n := w.length() & 0xFFFFFFFF
+			for i := uint64(0); i < n && !w.bad && !w.uns; i++ {
+				w.str()
+				w.skip(8)
+			}
+		case 6:
+			// key, then "does not support module type 1": the model rejects
+			w.str()
+			if w.uns {
+				return false
+			}
+			return true
+		case 3, 7, 15, 19, 21, 26:
+			// text-float zset / module 2 / streams: outside the byte model. The key
+			// string is read first; a malformed or short key is an error the model
+			// reports, an LZF key is unsupported, otherwise unsupported.
 			w.str()
 			if w.bad {
 				return true
